@@ -42,7 +42,11 @@ def gen(tape, big=False):
     in_run, runs = False, 0
     n = 3 + tape.draw("program", 24 if big else 12, "n-ops")
     for _ in range(n):
-        k = tape.weighted("program", [(5, "event"), (2, "add_prefix"), (2, "add_id"), (2, "run")], "op")
+        k = tape.weighted("program", [(10, "event"), (4, "add_prefix"), (4, "add_id"), (4, "run"), (1, "bad_rule")], "op")
+        if k == "bad_rule":
+            ops.append(["bad_rule", tape.choice("program", ("slash-in-prefix", "unknown-policy", "wrong-keyword"), "how"),
+                        tape.chance("program", 1, 2, "startstop")])
+            continue
         if k == "add_prefix":
             free = [s for s in SEGS if s not in used_p]
             if not free:
@@ -125,6 +129,20 @@ def run_one(tape, opts):
                     startstop.append(name)
                     if in_run:
                         expect[name].append(("startTestRun",))
+            elif op[0] == "bad_rule":
+                # a rule the router rejects registers nothing at all
+                name = f"rejected#{len(sinks)}"
+                snk = sink(name)
+                try:
+                    if op[1] == "slash-in-prefix":
+                        router.add_rule(snk, "route_code_prefix", route_prefix="0/1", consume_route=True, do_start_stop_run=op[2])
+                    elif op[1] == "unknown-policy":
+                        router.add_rule(snk, "no_such_policy", do_start_stop_run=op[2])
+                    else:
+                        router.add_rule(snk, "test_id", test_identifier="x", do_start_stop_run=op[2])
+                    out.violate("misrouted", "bad-rule-accepted", f"op {op} was not rejected")
+                except (TypeError, ValueError):
+                    out.probe("rejected-rule")
             elif op[0] == "start":
                 router.startTestRun()
                 in_run = True
